@@ -222,9 +222,12 @@ Proof.
 Qed.
 
 (* ------------------------------------------------------------------ describe o parse is a projection *)
+(* the descriptions the describers produce: 'hN', '#rgb' (three hex digits), 'gN' *)
+Definition norm_ok (d : desc) : bool :=
+  match d with DH _ | DGrayDec _ => true | DCube x => (0 <=? x) && (x <? 4096) | _ => false end.
 Definition rt_ok (desc_f : Z -> result desc) (parse : desc -> result (option Z)) (c : Z) : bool :=
   match desc_f c with
-  | Ok d' => match parse d' with Ok (Some c') => c' =? c | _ => false end
+  | Ok d' => norm_ok d' && match parse d' with Ok (Some c') => c' =? c | _ => false end
   | Err _ => false
   end.
 Lemma rt_256_sweep : forallb (rt_ok color_desc_256 parse_color_256) (upto 256) = true.
@@ -232,20 +235,28 @@ Proof. vm_compute. reflexivity. Qed.
 Lemma rt_88_sweep : forallb (rt_ok color_desc_88 parse_color_88) (upto 88) = true.
 Proof. vm_compute. reflexivity. Qed.
 
-Lemma rt_256 c : 0 <= c < 256 ->
-  exists d', color_desc_256 c = Ok d' /\ parse_color_256 d' = Ok (Some c).
+Lemma rt_256_norm c : 0 <= c < 256 ->
+  exists d', color_desc_256 c = Ok d' /\ parse_color_256 d' = Ok (Some c) /\ norm_ok d' = true.
 Proof.
   intros H. pose proof (sweep 256 _ rt_256_sweep c ltac:(lia)) as P. unfold rt_ok in P.
   destruct (color_desc_256 c) as [d'|]; [|discriminate]. exists d'. split; [reflexivity|].
+  apply andb_true_iff in P. destruct P as [N P]. split; [|exact N].
   destruct (parse_color_256 d') as [[c'|]|]; try discriminate. apply Z.eqb_eq in P. now subst.
 Qed.
-Lemma rt_88 c : 0 <= c < 88 ->
-  exists d', color_desc_88 c = Ok d' /\ parse_color_88 d' = Ok (Some c).
+Lemma rt_256 c : 0 <= c < 256 ->
+  exists d', color_desc_256 c = Ok d' /\ parse_color_256 d' = Ok (Some c).
+Proof. intros H. destruct (rt_256_norm c H) as [d' [A [B _]]]. now exists d'. Qed.
+Lemma rt_88_norm c : 0 <= c < 88 ->
+  exists d', color_desc_88 c = Ok d' /\ parse_color_88 d' = Ok (Some c) /\ norm_ok d' = true.
 Proof.
   intros H. pose proof (sweep 88 _ rt_88_sweep c ltac:(lia)) as P. unfold rt_ok in P.
   destruct (color_desc_88 c) as [d'|]; [|discriminate]. exists d'. split; [reflexivity|].
+  apply andb_true_iff in P. destruct P as [N P]. split; [|exact N].
   destruct (parse_color_88 d') as [[c'|]|]; try discriminate. apply Z.eqb_eq in P. now subst.
 Qed.
+Lemma rt_88 c : 0 <= c < 88 ->
+  exists d', color_desc_88 c = Ok d' /\ parse_color_88 d' = Ok (Some c).
+Proof. intros H. destruct (rt_88_norm c H) as [d' [A [B _]]]. now exists d'. Qed.
 
 (* ------------------------------------------------------------------ the parsers: total, in range *)
 (* what the lexer can produce: three hex characters are below 0x1000 (a sign makes them negative) *)
@@ -440,3 +451,26 @@ Definition gray_num_ok_88 (v : Z) : bool :=
   end.
 Lemma gray_num_sweeps : forallb gray_num_ok_256 (upto 256) = true /\ forallb gray_num_ok_88 (upto 256) = true.
 Proof. split; vm_compute; reflexivity. Qed.
+
+(* ------------------------------------------------------------------ '#rrggbb' below 2^24 colours: the high nibbles, through the cube *)
+Lemma p256_cube_some_sweep :
+  forallb (fun n => match parse_color_256 (DCube n) with Ok (Some _) => true | _ => false end) (upto 4096) = true.
+Proof. vm_compute. reflexivity. Qed.
+
+Lemma degrade_88 n : 0 <= n < 16777216 -> parse_color_88 (DTrue n) = parse_color_88 (DCube (hi_nibbles n)).
+Proof.
+  intros H. unfold parse_color_88 at 1. lex_cbn.
+  replace ((0 <=? n) && (n <? 16777216)) with true by lia. reflexivity.
+Qed.
+
+Lemma degrade_256 n : 0 <= n < 16777216 ->
+  bind (true_to_256 (DTrue n)) (fun t => parse_color_256 (match t with Some d' => d' | None => DTrue n end))
+  = parse_color_256 (DCube (hi_nibbles n)).
+Proof.
+  intros H. pose proof (hi_nibbles_range n H) as HR.
+  unfold true_to_256. lex_cbn. cbn [negb]. replace ((0 <=? n) && (n <? 16777216)) with true by lia.
+  pose proof (sweep 4096 _ p256_cube_some_sweep (hi_nibbles n) ltac:(lia)) as S. cbn beta in S.
+  destruct (parse_256_total (DCube (hi_nibbles n)) ltac:(cbn; lia)) as [o [Eo Ro]].
+  rewrite Eo in S |- *. destruct o as [c|]; [|discriminate]. cbn [bind].
+  destruct (rt_256 c (Ro c eq_refl)) as [d' [Ed Ep]]. rewrite Ed. cbn [bind]. exact Ep.
+Qed.
